@@ -284,7 +284,53 @@ impl<'tcx> Cx<'tcx> {
                                 v.push(("bytes_str", s(st)));
                             }
                         } else {
-                            v.push(("ptr", s("memory-with-pointers")));
+                            // an allocation of fat `&str` pointers (`&&str`, `&[&str; N]`): decode
+                            // every (ptr, len) pair into its string
+                            let mut strs = Vec::new();
+                            let size = len;
+                            let mut ok = size % 16 == 0 && start == 0;
+                            if ok {
+                                for chunk in 0..size / 16 {
+                                    let off = rustc_abi::Size::from_bytes((chunk * 16) as u64);
+                                    let prov = alloc.provenance().ptrs().get(&off).copied();
+                                    let lenbytes = alloc.inspect_with_uninit_and_ptr_outside_interpreter(chunk * 16 + 8..chunk * 16 + 16);
+                                    let ptrbytes = alloc.inspect_with_uninit_and_ptr_outside_interpreter(chunk * 16..chunk * 16 + 8);
+                                    let mut lb = [0u8; 8];
+                                    lb.copy_from_slice(lenbytes);
+                                    let slen = u64::from_le_bytes(lb) as usize;
+                                    let mut pb = [0u8; 8];
+                                    pb.copy_from_slice(ptrbytes);
+                                    let poff = u64::from_le_bytes(pb) as usize;
+                                    match prov {
+                                        Some(p) => match tcx.global_alloc(p.alloc_id()) {
+                                            mir::interpret::GlobalAlloc::Memory(inner) => {
+                                                let inner = inner.inner();
+                                                if poff + slen <= inner.len() && inner.provenance().ptrs().is_empty() {
+                                                    let b = inner.inspect_with_uninit_and_ptr_outside_interpreter(poff..poff + slen);
+                                                    match std::str::from_utf8(b) {
+                                                        Ok(st) => strs.push(s(st)),
+                                                        Err(_) => ok = false,
+                                                    }
+                                                } else {
+                                                    ok = false;
+                                                }
+                                            }
+                                            _ => ok = false,
+                                        },
+                                        None => ok = false,
+                                    }
+                                }
+                            }
+                            if ok && !strs.is_empty() {
+                                if strs.len() == 1 {
+                                    if let J::Str(st) = &strs[0] {
+                                        v.push(("v", s(st.clone())));
+                                    }
+                                }
+                                v.push(("strs", J::Arr(strs)));
+                            } else {
+                                v.push(("ptr", s("memory-with-pointers")));
+                            }
                         }
                     }
                     mir::interpret::GlobalAlloc::Static(did) => {
